@@ -121,9 +121,18 @@ def run_powell(rng, obs):
     maxiter = rng.choice([None, None, 2, 5]); maxfun = rng.choice([None, None, 60, 400])
     obs.desc = {'solver': 'powell', 'cost': spec, 'x0': x0, 'xtol': xtol, 'ftol': ftol, 'maxiter': maxiter, 'maxfun': maxfun}
     probe = K.CostProbe(raw)
-    xm, fm, itm, fcm, wfm, dm = fmin_powell(probe, list(x0), xtol=xtol, ftol=ftol, maxiter=maxiter, maxfun=maxfun, full_output=1, disp=0)[:6]
+    # the initial direction set: default (coordinate directions), or user-supplied - as floats, as python ints, as an integer array
+    dk = rng.choice(['default', 'default', 'float', 'int_list', 'int_array', 'skew_int'])
+    direc = None
+    if dk == 'float': direc = [[(1.0 if i == j else 0.0) * rng.choice([1.0, 2.0, 0.5]) for j in range(dim)] for i in range(dim)]
+    elif dk == 'int_list': direc = [[1 if i == j else 0 for j in range(dim)] for i in range(dim)]
+    elif dk == 'int_array': direc = np.eye(dim, dtype=int)
+    elif dk == 'skew_int': direc = [[1 if j <= i else 0 for j in range(dim)] for i in range(dim)]
+    obs.desc['direc'] = dk
+    dkw = {} if direc is None else {'direc': (direc.copy() if hasattr(direc, 'copy') else [list(r) for r in direc])}
+    xm, fm, itm, fcm, wfm, dm = fmin_powell(probe, list(x0), xtol=xtol, ftol=ftol, maxiter=maxiter, maxfun=maxfun, full_output=1, disp=0, **dkw)[:6]
     rawf = lambda x: raw([float(v) for v in x])
-    xr, fr, itr, fcr, wfr, dr, hist, taken = RP.fmin_powell(rawf, x0, brent, xtol, ftol, maxiter, maxfun)
+    xr, fr, itr, fcr, wfr, dr, hist, taken = RP.fmin_powell(rawf, x0, brent, xtol, ftol, maxiter, maxfun, direc=None if direc is None else np.array(direc, dtype=float))
     ctx = dict(case=obs.desc)
     obs.check(int(itm) == itr, 'powell:same iteration count as the direction-set reference', observed=int(itm), expected=itr, **ctx)
     obs.check(int(fcm) == fcr == probe.n, 'powell:same evaluation count as the direction-set reference', observed=int(fcm), expected=fcr, real=probe.n, **ctx)
